@@ -71,14 +71,11 @@ class Check:
                       {"theorem": "gate", "detail": bad})
             return False
         self.obligation("gate:no-axioms-no-admits", True)
-        if regen:
-            with core.Lock("coqgen"):
-                regen()
         vfile = core.COQ / "Properties" / (module + ".v")
         targets = ["Properties/%s.vo" % module] + list(extra_targets)
         self.checker_cmd = "cd /verif/coq && coq_makefile -f _CoqProject -o Makefile && make -k -j16 " + " ".join(targets) + \
             "  (coqc 8.16.1, full .vo build; then Print Assumptions on every theorem of Properties/%s.v)" % module
-        ok, out = core.coq_make(targets)
+        ok, out = core.coq_make(targets, regen=regen)
         thms = core.theorems_of(vfile)
         if not ok:
             errs = re.findall(r'File "([^"]+)", line (\d+), characters [^\n]*\n(?:.*\n){0,12}?Error:?([^\n]*(?:\n[^\n]+){0,6})', out)
